@@ -43,6 +43,10 @@ SPECIALS = [
     "C[O-]", "C[NH3+]", "[NH4+]", "O", "N", "S", "[OH-]", "OO", "COOC", "NN", "CSSC", "ClCCl", "BrCCO", "C(F)(F)(F)O",
     "OCC(O)C(O)C(O)C(O)C=O", "OC1C(O)C(O)C(O)C(O)C1O", "C1CCCCCCCCCCC(=O)OCCCCCCC1", "c1ccc2cc3ccccc3cc2c1",
     "c1cc2ccc3cccc4ccc(c1)c2c34", "Oc1ccc2ccc3cccc4ccc1c2c34", "c1ccc2c(c1)[nH]c1ccccc12", "Oc1nc2ccccc2[nH]1",
+    # centres with six neighbours that patterns run THROUGH (720 neighbour orders each), in several atom orders
+    "CS(F)(F)(F)(F)C", "FS(C)(C)(F)(F)F", "FS(F)(C)(F)(F)C", "COS(F)(F)(F)(F)OC", "CS(F)(F)(F)(F)N", "CCS(F)(F)(F)(F)CC",
+    "FS(F)(F)(F)(F)c1ccccc1", "C[P-](F)(F)(F)(F)C", "CO[P-](OC)(OC)(OC)(OC)OC", "CS(C)(F)(F)(F)OC", "OS(O)(O)(O)(O)O",
+    "CS(O)(F)(F)(F)C", "NS(F)(F)(F)(F)N", "CS(F)(F)(F)(F)SC", "FS(F)(F)(C)(F)OC",
 ]
 
 
